@@ -18,8 +18,17 @@
               ast node; kind of statement + expression with local names anonymised, e.g. `Delete:_[3]`), so a new
               unguarded subscript inside a function that already has a listed crash is still a VIOLATION, while renaming
               locals / re-wrapping / moving the code of a listed site is not.  The sites of the listed findings are in
-              harness/c13_known_sites.json (or `match.expr` of the entry); findings proposed by round 1 and not yet
-              merged are read from reports/C13-known-findings-3.json.
+              harness/c13_known_sites.json (or `match.expr` of the entry); findings proposed by triage round 5 and not yet
+              merged / repaired upstream are read from reports/C13-known-findings-5.json.  A timeout is matched the same
+              way: the runner reports the innermost jmc frame in which the alarm fired.
+ round 5      (c13_gen.py, c13_mut.py) header-line neighbourhood (every line: delete / duplicate / swap / move to the end /
+              blank and comment-only forms / cut after each token / appended token), head-of-statement insertions and
+              replacements by every operator / symbol, sources that END in every token kind without `;` (incl. the macro
+              names of the program's header), corpus programs whose macros are defined on LATE header lines over a one-line
+              source (tokens made by `#deepdefine` carry header line numbers), and generated streams: header forms of
+              every directive, a declaration at every gap of every block statement, the argument matrix of every built-in
+              of the registry, compile-time arithmetic from a grammar incl. degenerate forms, and the hang detector's own
+              size-parameterised inputs; the hang detector itself is exercised on every run by a canary job.
 """
 from __future__ import annotations
 
@@ -28,17 +37,20 @@ import re
 from concurrent.futures import ThreadPoolExecutor
 
 from lib import (Check, COMMON_TRUSTED, NCPU, REPO, VERIF, GEN, compile_batch, eval_cases, known_for, run_coq_files, run_py)
-from c13_corpus import corpus_c13, FULL_CERT
-from c13_mut import mutants, contexts, ALPHABET, STRING_ALPHABET
+from c13_corpus import corpus_c13, macro_names, FULL_CERT
+from c13_mut import mutants, contexts, head_end_mutants, header_line_mutants, ALPHABET, STRING_ALPHABET, HEAD_SYMBOLS, END_TOKENS
+import c13_gen
 from c14_lib import COQ_HEADER, call_encodable, env_term, space_ranges, tcase_term
 import translate_guards as tg
 
 PROP = "C13"
 RUNNER = VERIF / "harness" / "c13_run.py"
 TRACER = VERIF / "harness" / "c14_run.py"
+STRESS_ALARM = 20       # seconds; the size-parameterised inputs of c13_gen.stress take well under 2 s each on the unchanged tree
 BASELINE = VERIF / "harness" / "c13_guards_baseline.json"
 KNOWN_SITES = VERIF / "harness" / "c13_known_sites.json"          # finding id -> failing expressions of its crash sites
-PROPOSED = VERIF / "reports" / "C13-known-findings-3.json"        # findings of strengthening round 1, not yet merged
+PROPOSED = VERIF / "reports" / "C13-known-findings-5.json"        # findings of triage round 5: not yet merged, or repaired by a
+#                                                                   fix patch the integrator has not committed yet
 
 
 def known_findings():
@@ -47,7 +59,7 @@ def known_findings():
     refine = json.loads(KNOWN_SITES.read_text()) if KNOWN_SITES.exists() else {}
     listed = list(known_for(PROP))
     ids = {f["id"] for f in listed}
-    if False and PROPOSED.exists():  # merged into known_findings.json
+    if PROPOSED.exists():
         listed += [f for f in json.loads(PROPOSED.read_text()) if f.get("property") == PROP and f["id"] not in ids]
     out = []
     for f in listed:
@@ -56,11 +68,15 @@ def known_findings():
     return out
 
 
-def run_mutants(jobs, chunk=300):
+def run_mutants(jobs, chunk=300, alarm=5, times=False):
     chunks = [jobs[i:i + chunk] for i in range(0, len(jobs), chunk)]
     with ThreadPoolExecutor(max_workers=NCPU) as ex:
-        res = list(ex.map(lambda c: run_py(RUNNER, dict(jobs=c, timeout=5, cert=FULL_CERT), timeout=3000), chunks))
+        res = list(ex.map(lambda c: run_py(RUNNER, dict(jobs=c, timeout=alarm, cert=FULL_CERT, times=times), timeout=3000), chunks))
     return [r for rs in res for r in rs]
+
+
+# operators with one mutant per token of an alphabet: the quick tier runs one seeded member of every (cell x operator)
+SAMPLED_OPERATORS = ("replace", "head-insert", "end-append", "line-insert", "line-append")
 
 
 def deep_programs():
@@ -76,12 +92,20 @@ def deep_programs():
 
 
 def known_match(o, table=None):
-    """o = ['internal', exc, file, function, lineno, msg, expr] | ['timeout'] -> known finding entry or None"""
+    """o = ['internal', exc, file, function, lineno, msg, expr] | ['timeout', file, function, lineno, expr] -> known finding
+    entry or None.  A timeout entry (`match.outcome == "timeout"`) names the file and function in which the alarm fired
+    (and, optionally, the expressions): a hang somewhere else is not covered by it."""
     for f, exprs in (table if table is not None else known_findings()):
         m = f.get("match", {})
         if o[0] == "timeout":
-            if m.get("outcome") == "timeout":
-                return f
+            if m.get("outcome") != "timeout":
+                continue
+            if "file" in m and (len(o) < 3 or m["file"] != o[1] or m.get("function") != o[2]):
+                continue
+            if "file" in m and exprs is not None and (len(o) < 5 or o[4] not in exprs):
+                continue
+            return f
+        if m.get("outcome") == "timeout":
             continue
         if m.get("exc") != o[1]:
             continue
@@ -104,8 +128,17 @@ def main(tier: str) -> int:
         "(statement parameters and elements of Tokenizer.parse results have length >= 1) are C13_tok_nonempty",
         "harness: c13.py, c13_run.py, c13_mut.py, c13_corpus.py, c14_run.py, c14_lib.py, Run/C13.v, Run/C14.v",
     ]
+    import time
+    t_phase = [time.time()]
+    phases = {}
+
+    def phase(name):
+        t_phase.append(time.time())
+        phases[name] = round(t_phase[-1] - t_phase[-2], 1)
+
     pr = ck.proof(extra_targets=["Run/C13.vo"])
     rng = ck.rng
+    phase("proof")
 
     # ------------------------------------------------------------ regenerated: whitespace table
     sp = space_ranges()
@@ -148,6 +181,7 @@ def main(tier: str) -> int:
     for k in new_open:
         print(f"NOTE property=C13 guard obligation not closed by lia (not counted as discharged): {k}", flush=True)
 
+    phase("guards")
     # ------------------------------------------------------------ corpus
     cs = corpus_c13(REPO)
     res = compile_batch([dict(src=c["src"], header=c["header"], cert=FULL_CERT, pack_format=c["pack_format"]) for c in cs], chunk=20)
@@ -163,6 +197,7 @@ def main(tier: str) -> int:
                           note="fewer than 80 % of the per-statement corpus programs compile on this tree: the neighbourhood "
                                "no longer covers the statement kinds"), no_input=True)
 
+    phase("corpus")
     # ------------------------------------------------------------ the single-edit neighbourhood
     allm, seen = [], set()        # (origin name, operator, cell context, job)
     for c in valid:
@@ -172,6 +207,14 @@ def main(tier: str) -> int:
             if k not in seen:
                 seen.add(k)
                 allm.append((c["name"], op, ctx[i], dict(src=m, header=c["header"], pack_format=c["pack_format"])))
+        # round 5: every operator / symbol in front of / instead of the first token of every statement; the source ending in
+        # every token kind (and in each macro name of its header) without `;`
+        for op, i, m in head_end_mutants(c["src"], c.get("span"), macro_names(c["header"])):
+            k = (m, c["header"], c["pack_format"])
+            if k not in seen:
+                seen.add(k)
+                cell = ("head5", ctx[i][3], ctx[i + 1][3] if op.startswith("head") and i + 1 < len(ctx) else "$")
+                allm.append((c["name"], op, cell, dict(src=m, header=c["header"], pack_format=c["pack_format"])))
         if c["header"]:
             ctx = contexts(c["header"])
             for op, i, m in mutants(c["header"], c.get("header_span")):
@@ -179,6 +222,14 @@ def main(tier: str) -> int:
                 if k not in seen:
                     seen.add(k)
                     allm.append((c["name"], "header:" + op, ("header",) + ctx[i], dict(src=c["src"], header=m, pack_format=c["pack_format"])))
+            # round 5: the header is line-oriented: its neighbourhood per LINE
+            hlines = c["header"].split("\n")
+            for op, n_, m in header_line_mutants(c["header"]):
+                k = (c["src"], m, c["pack_format"])
+                if k not in seen:
+                    seen.add(k)
+                    word = (hlines[n_].split() or [""])[0] if n_ < len(hlines) else "$"
+                    allm.append((c["name"], "header:" + op, ("header-line", word), dict(src=c["src"], header=m, pack_format=c["pack_format"])))
     total_neighbourhood = len(allm)
     cells = {}
     for n, x in enumerate(allm):
@@ -188,23 +239,88 @@ def main(tier: str) -> int:
         keep = set()
         for key in sorted(cells):
             members = cells[key]
-            if "replace" not in key[1]:
+            if not any(w in key[1] for w in SAMPLED_OPERATORS):
                 keep.update(members)
             else:
                 keep.add(members[rng.randrange(len(members))])
         allm = [x for n, x in enumerate(allm) if n in keep]
     cells_run = len({(x[2], x[1]) for x in allm})
     deep = deep_programs()
-    jobs = [x[3] for x in allm] + [dict(src=s, header=None, pack_format=None) for _, s in deep]
-    labels = [(x[0], x[1]) for x in allm] + [(n, "generated") for n, _ in deep]
+    # ------------------------------------------------------------ round 5: generated streams (c13_gen.py)
+    registry = run_py(RUNNER, dict(op="builtins"), timeout=120)
+    if len(registry) < 50:
+        ck.violation(dict(kind="builtin-registry-not-read", found=len(registry)), no_input=True)
+    streams = {
+        "header_forms": list(c13_gen.header_forms(REPO)),
+        "nested_decls": list(c13_gen.nested_decls()),
+        "builtin_matrix": list(c13_gen.builtin_matrix(registry)),
+        "arithmetic": list(c13_gen.arithmetic(rng, 60 if tier == "quick" else 600)),
+    }
+    gen_total = {k: len(v) for k, v in streams.items()}
+    gen, gseen = [], set()
+    for sname, items in streams.items():
+        if tier == "quick":
+            items = c13_gen.quick_sample(sname, items, rng)
+        for (st, cell), job in items:
+            k = (job["src"], job["header"])
+            if k not in gseen:
+                gseen.add(k)
+                if st == "builtin_matrix":
+                    job = dict(job, alarm=3)      # thousands of numeric arguments: a count of 2^31 is a hang within 3 s as well
+                gen.append((st, cell, job))
+    gen_run = {}
+    for st, _, _ in gen:
+        gen_run[st] = gen_run.get(st, 0) + 1
+    jobs = [x[3] for x in allm] + [dict(src=s, header=None, pack_format=None) for _, s in deep] + [g[2] for g in gen]
+    labels = [(x[0], x[1]) for x in allm] + [(n, "generated") for n, _ in deep] + [("gen." + g[0], "generated:" + str(g[1])[:80]) for g in gen]
+    phase("generate")
     out = run_mutants(jobs)
+    phase("run-mutants")
+    # the hang detector's own inputs (longer alarm, wall time recorded) and its canary: a job that spins for longer than
+    # its alarm MUST come back as a timeout, otherwise no hang of the compiler would be seen either
+    stress = c13_gen.stress(tier)
+    sjobs = [j for _, _, j in stress]
+    sout = run_mutants(sjobs, chunk=4, alarm=STRESS_ALARM, times=True)
+    stress_times = {}
+    for (sname, size, _), o in zip(stress, sout):
+        stress_times.setdefault(sname, []).append([size, o[0], o[-1]])
+    jobs += sjobs
+    labels += [("stress." + n, "generated:size=%d" % sz) for n, sz, _ in stress]
+    out += [o[:-1] for o in sout]
+    canary = run_mutants([dict(canary=4, alarm=1), dict(src='function f() { say "a"; }', header=None, pack_format=None)], alarm=1)
+    if canary[0][0] != "timeout" or canary[1][0] != "ok":
+        ck.violation(dict(kind="hang-detector-broken", canary=canary,
+                          expected="a job spinning for 4 s under a 1 s alarm is reported as timeout, the next job still runs"), no_input=True)
 
+    # a timeout is only believed when the job, run again ALONE in a fresh process, times out again (a job that follows a
+    # memory-hungry one in the same batch can be slow for reasons that are not its own): the shortest job of every
+    # timeout site first; when that one does not confirm, every job of the site
+    tgroups = {}
+    for n, o in enumerate(out):
+        if o[0] == "timeout":
+            tgroups.setdefault((o[1], o[2]) if len(o) > 2 else ("?", "?"), []).append(n)
+    first = {k: min(v, key=lambda n: len(jobs[n]["src"]) + len(jobs[n]["header"] or "")) for k, v in tgroups.items()}
+    again = run_mutants([jobs[n] for n in first.values()], chunk=1, alarm=5) if first else []
+    reruns = len(again)
+    for (k, n), o in zip(first.items(), again):
+        n_stress = n >= len(jobs) - len(sjobs)
+        if n_stress:
+            o = run_mutants([jobs[n]], chunk=1, alarm=STRESS_ALARM)[0]
+        if o[0] == "timeout":
+            continue
+        rest = run_mutants([jobs[m] for m in tgroups[k]], chunk=1, alarm=STRESS_ALARM if n_stress else 5)
+        reruns += len(rest)
+        for m, o2 in zip(tgroups[k], rest):
+            out[m] = o2
+    phase("stress+confirm")
     classes = {"ok": 0, "diag": 0, "internal": 0, "timeout": 0}
     sites = {}
     for (name, op), job, o in zip(labels, jobs, out):
         classes[o[0]] += 1
         if o[0] in ("internal", "timeout"):
-            key = ("timeout", "", "", "") if o[0] == "timeout" else (o[2], o[3], o[1], o[6] if len(o) > 6 else "")
+            # a timeout is keyed by the function the alarm fired in (the exact expression varies from run to run)
+            key = ((o[1] if len(o) > 1 else "?"), (o[2] if len(o) > 2 else "?"), "timeout", "") if o[0] == "timeout" \
+                else (o[2], o[3], o[1], o[6] if len(o) > 6 else "")
             cur = sites.get(key)
             if cur is None or len(job["src"]) + len(job["header"] or "") < len(cur[1]["src"]) + len(cur[1]["header"] or ""):
                 n = (cur[3] if cur else 0) + 1
@@ -224,9 +340,10 @@ def main(tier: str) -> int:
                           site=dict(file=key[0], function=key[1], exception=key[2], failing_expression=key[3]),
                           expected="compiles, or one of jmc.compile.exception.EXCEPTIONS, within 5 s"))
 
+    phase("classify")
     # ------------------------------------------------------------ tie: Tok.parse == Tokenizer.parse on traced mutants
     n_tie = 1500 if tier == "quick" else 8000
-    pool = [j for j, o in zip(jobs, out) if j["header"] is None]
+    pool = [j for j, o in zip(jobs, out) if j["header"] is None and len(j["src"]) <= 4000]
     sample = rng.sample(pool, min(n_tie, len(pool)))
     chunks = [sample[i:i + 80] for i in range(0, len(sample), 80)]
     with ThreadPoolExecutor(max_workers=NCPU) as ex:
@@ -264,6 +381,7 @@ def main(tier: str) -> int:
                               start=[call["line"], call["col"]], real=json.dumps(o)[:1200],
                               theorem="C13_tok_total / C13_tok_nonempty no longer speak about the code"), no_input=True)
 
+    phase("tie")
     # obligations of this run's claim: the theorems of Props/C13.v, the lemmas written into Gen/C13/Guards.v (one per
     # subscript whose facts entail the bound; the others are listed under guard_obligations.open and are NOT part of the
     # claim) and the whitespace table; discharged = those that coqc accepted on this run
@@ -278,7 +396,11 @@ def main(tier: str) -> int:
              "the model); non-trivial = mutants that no longer compile (diagnostic or internal) + distinct traced calls",
         programs=len(valid), corpus=dict(total=len(cs), valid=len(valid)),
         neighbourhood=dict(total=total_neighbourhood, run=len(allm), generated_deep=len(deep), alphabet=ALPHABET,
-                           string_alphabet=STRING_ALPHABET),
+                           string_alphabet=STRING_ALPHABET, head_symbols=HEAD_SYMBOLS, end_tokens=END_TOKENS),
+        phases_s=phases, timeouts_rerun_alone=reruns,
+        generated_streams=dict(total=gen_total, run=gen_run, builtins_in_registry=len(registry), stress_programs=len(stress),
+                               stress_alarm_s=STRESS_ALARM, stress_times={k: v for k, v in sorted(stress_times.items())},
+                               hang_detector_canary=canary[0][0]),
         outcome_classes=classes,
         crash_sites={f"{k[0]}:{k[1]}:{k[2]}:{k[3]}": v[3] for k, v in sorted(sites.items())},
         statement_corpus=dict(total=n_stmt_total, valid=n_stmt_valid),
@@ -297,10 +419,11 @@ def replay(path: str) -> int:
     if rp.get("program") is None:
         print("replay file has no program (proof / regenerated tie breakage):", rp.get("kind"))
         return 1
-    o = run_mutants([dict(src=rp["program"], header=rp.get("header"), pack_format=rp.get("pack_format"))])[0]
+    o = run_mutants([dict(src=rp["program"], header=rp.get("header"), pack_format=rp.get("pack_format"))],
+                    alarm=STRESS_ALARM if str(rp.get("origin", "")).startswith("stress.") else 5)[0]
     print("program :", repr(rp["program"])[:500])
     if rp.get("header"):
         print("header  :", repr(rp["header"])[:300])
-    print("expected: compiles, or a JMC diagnostic (jmc.compile.exception.EXCEPTIONS), within 5 s")
+    print("expected: compiles, or a JMC diagnostic (jmc.compile.exception.EXCEPTIONS), within 5 s (stress programs: %d s)" % STRESS_ALARM)
     print("actual  :", o)
     return 1 if o[0] in ("internal", "timeout") else 0
